@@ -44,6 +44,35 @@ def spec_mutants(ctx):
     return True
 
 
+NUM_MUTANTS = [   # (name, old, new, family, invariants, properties)
+    ("widening without the -1 for positive amplitudes", "ELSE IF a > 0 THEN (a + 1) * Pow(dd - sd) - 1 ELSE a * Pow(dd - sd))", "ELSE IF a > 0 THEN (a + 1) * Pow(dd - sd) ELSE a * Pow(dd - sd))", "quant", ["QuantInRange", "QuantLevelsInv"], []),
+    ("widening by plain shift (highest code not reached)", "ELSE IF a > 0 THEN (a + 1) * Pow(dd - sd) - 1 ELSE a * Pow(dd - sd))", "ELSE a * Pow(dd - sd))", "quant", ["QuantLevelsInv"], []),
+    ("narrowing two steps off", "IF sd >= dd THEN (IF ss THEN TruncDiv(a, Pow(sd - dd)) ELSE FloorDiv(a, Pow(sd - dd)))", "IF sd > dd THEN (IF ss THEN TruncDiv(a, Pow(sd - dd)) - 2 ELSE FloorDiv(a, Pow(sd - dd)))\n      ELSE IF sd = dd THEN a", "quant", ["QuantAccuracyInv", "QuantInRange"], []),
+    ("float to fixed without clipping", "    IF v >= One THEN nHighest(sg, d)\n    ELSE IF v <= -One THEN nLowest(sg, d)\n    ELSE nCode", "    IF FALSE THEN nHighest(sg, d)\n    ELSE IF FALSE THEN nLowest(sg, d)\n    ELSE nCode", "floatfix", ["FloatFixInv"], []),
+    ("float to fixed with one full scale for both signs", "IF v > 0 THEN TruncDiv(v * msv, One) ELSE TruncDiv(v * (msv + 1), One))", "TruncDiv(v * (msv + 2), One))", "floatfix", ["FloatFixInv"], []),
+    ("clipping to the wrong bound", "RefClipS(b, v) == IF v < RefMinS(b) THEN RefMinS(b) ELSE IF v > RefMaxS(b) THEN RefMaxS(b) ELSE v", "RefClipS(b, v) == IF v < RefMinS(b) THEN RefMinS(b) ELSE IF v > RefMaxS(b) THEN RefMinS(b) ELSE v", "depth", ["DepthInv"], ["ClipMonotone"]),
+    ("frequency rounding down instead of to nearest", "Nearest(n, m) == {k \\in ((n \\div m) - 1)..((n \\div m) + 2) : 2 * (k * m - n) <= m /\\ 2 * (n - k * m) <= m}", "Nearest(n, m) == {n \\div m}", "freq", ["FreqInv"], []),
+]
+
+
+def num_mutants(ctx):
+    src = open(os.path.join(VERIF, "spec", "MCNum.tla")).read()
+    good = True
+    for name, old, new, fam, invs, props in NUM_MUTANTS:
+        old, new = old.replace("\\n", "\n").replace("\\\\", "\\"), new.replace("\\n", "\n").replace("\\\\", "\\")
+        if old not in src:
+            raise Infra("numeric spec mutant %r: pattern not found in MCNum.tla" % name)
+        open(os.path.join(ctx.spec, "MCNum.tla"), "w").write(src.replace(old, new, 1))
+        cfg = "SPECIFICATION Spec\nCONSTANTS\n  Family = \"%s\"\n  MaxDepth = 5\nINVARIANTS\n%s%sCHECK_DEADLOCK FALSE\n" % (
+            fam, "".join("  %s\n" % i for i in invs), ("PROPERTIES\n" + "".join("  %s\n" % p for p in props)) if props else "")
+        rc, out = ctx.tlc("MCNum", cfg, timeout=600, tag="nummut")
+        refuted = "is violated" in out
+        print("numeric spec mutant %-55s %s" % (name, "refuted" if refuted else "NOT REFUTED"))
+        good = good and refuted
+    open(os.path.join(ctx.spec, "MCNum.tla"), "w").write(src)
+    return good
+
+
 def corruptions(ctx):
     st = ctx.record("hist", shards=1)
     path = st["files"][0]
@@ -94,6 +123,7 @@ def main(a):
     print("BigNat vs Python integers: %d lines, %d disagreements" % (tot["lines"], len(mm)))
     ok = ok and not mm
     ok = spec_mutants(ctx) and ok
+    ok = num_mutants(ctx) and ok
     ok = corruptions(ctx) and ok
     pf.mutant_refuted(ctx, pf.MC[("C10", "quick")])
     print("pool spec mutant PutAsPinned: refuted")
